@@ -125,7 +125,26 @@ def run_replay(path):
     return 0
 
 
+def _scratch_root():
+    """one scratch root per check run; pool workers create their directories inside it and the
+    whole tree is removed when the check ends (worker processes do not run atexit handlers)"""
+    import tempfile
+    base = '/dev/shm' if os.path.isdir('/dev/shm') and os.access('/dev/shm', os.W_OK) else tempfile.gettempdir()
+    root = tempfile.mkdtemp(prefix='vtroot-', dir=base)
+    os.environ['VT_SCRATCH_ROOT'] = root
+    return root
+
+
 def main(argv=None):
+    root = _scratch_root()
+    try:
+        return _main(argv)
+    finally:
+        import shutil
+        shutil.rmtree(root, ignore_errors=True)
+
+
+def _main(argv=None):
     ap = argparse.ArgumentParser()
     ap.add_argument('what')
     ap.add_argument('arg', nargs='?')
